@@ -236,15 +236,15 @@ func genName(rng *hx.Rng) string {
 	return string(b)
 }
 
-func genType(rng *hx.Rng, depth int) *gt {
+func c20GenType(rng *hx.Rng, depth int) *gt {
 	if depth <= 0 || rng.Chance(0.35) {
 		return genScalarType(rng)
 	}
 	switch rng.Intn(3) {
 	case 0:
-		return &gt{k: gSlice, elem: genType(rng, depth-1)}
+		return &gt{k: gSlice, elem: c20GenType(rng, depth-1)}
 	case 1:
-		return &gt{k: gMap, key: genScalarType(rng), elem: genType(rng, depth-1)}
+		return &gt{k: gMap, key: genScalarType(rng), elem: c20GenType(rng, depth-1)}
 	default:
 		n := 1 + rng.Intn(4)
 		t := &gt{k: gStruct}
@@ -258,7 +258,7 @@ func genType(rng *hx.Rng, depth int) *gt {
 				continue
 			}
 			seen[strings.ToLower(nm)] = true
-			t.fields = append(t.fields, gfield{nm, genType(rng, depth-1)})
+			t.fields = append(t.fields, gfield{nm, c20GenType(rng, depth-1)})
 		}
 		return t
 	}
@@ -355,7 +355,7 @@ func perturb(rng *hx.Rng, t *gt) string {
 				continue
 			}
 			for {
-				n := genType(rng, 1)
+				n := c20GenType(rng, 1)
 				if s.isKey && n.k >= gSlice {
 					continue
 				}
@@ -410,7 +410,7 @@ func perturb(rng *hx.Rng, t *gt) string {
 				if nm != "" {
 					i := rng.Intn(len(p.fields) + 1)
 					fs := append([]gfield{}, p.fields[:i]...)
-					fs = append(fs, gfield{nm, genType(rng, 1)})
+					fs = append(fs, gfield{nm, c20GenType(rng, 1)})
 					p.fields = append(fs, p.fields[i:]...)
 					return "field-added"
 				}
@@ -429,7 +429,7 @@ func perturb(rng *hx.Rng, t *gt) string {
 					if !dup {
 						i := rng.Intn(len(p.fields) + 1)
 						fs := append([]gfield{}, p.fields[:i]...)
-						fs = append(fs, gfield{nm, genType(rng, 0)})
+						fs = append(fs, gfield{nm, c20GenType(rng, 0)})
 						p.fields = append(fs, p.fields[i:]...)
 						return "ambiguous-name"
 					}
@@ -963,7 +963,7 @@ func runC20(res *hx.Result, rng *hx.Rng, tier string, outdir string) {
 	}
 
 	for i := 0; i < n; i++ {
-		t1 := genType(rng, rng.Pick(0, 1, 1, 2, 2, 2, 3, 3))
+		t1 := c20GenType(rng, rng.Pick(0, 1, 1, 2, 2, 2, 3, 3))
 		t2 := widen(rng, t1)
 		kind := "compatible"
 		switch r := rng.Intn(10); {
@@ -989,7 +989,7 @@ func runC20(res *hx.Result, rng *hx.Rng, tier string, outdir string) {
 			}
 		case r < 6: // unrelated top-level kinds
 			for {
-				t2 = genType(rng, 1)
+				t2 = c20GenType(rng, 1)
 				if t2.class() != t1.class() {
 					break
 				}
